@@ -84,6 +84,10 @@ inductive Expr where
   | lenK (a : Expr)                         -- `len(m)` of a key set
   | inK (m k : Expr)                        -- `_, ok := m[string(k)]`
   | eqB (a b : Expr)                        -- equality of two byte strings (`string(a) == b`)
+  | fcmpF (op : BinOp) (a : Expr) (bits : Nat)   -- `a <op> C` for a float64 `a` and a float constant `C` given by its bits
+  | fIsInf (a : Expr)                       -- `math.IsInf(a, 0)`
+  | fIsNaN (a : Expr)                       -- `math.IsNaN(a)`
+  | fabs (a : Expr)                         -- `math.Abs(a)`
   | fcmpK (op : BinOp) (a : Expr) (k : Int) -- `a <op> K`, `a` a float64 (carried as its bits), `K` an untyped integer constant
   | f2i (a : Expr)                          -- `int64(a)`, `a` a float64
   | f2u (a : Expr)                          -- `uint64(a)`, `a` a float64
@@ -94,6 +98,7 @@ inductive Expr where
 inductive Stmt where
   | assign (name : String) (e : Expr)
   | tapeSet (base : String) (idx e : Expr)          -- `base.tape.Tape[idx] = e`
+  | setB (name : String) (idx e : Expr)             -- `name[idx] = e` for a byte slice variable
   | tapeAppend (base : String) (es : List Expr)     -- `base.Tape = append(base.Tape, es…)`: only for a view that is the
                                                     -- whole tape (`lim = len`), as during parsing
   | setLen (base : String) (e : Expr)               -- `base.tape.Tape = base.tape.Tape[:e]` (Go checks `e` against the
@@ -177,6 +182,7 @@ def binop (op : BinOp) (a b : Val) : Option Val :=
   | .add, .int x, .int y => some (.int (x + y))
   | .sub, .int x, .int y => some (.int (x - y))
   | .mul, .int x, .int y => some (.int (x * y))
+  | .and, .int x, .int y => if 0 ≤ x ∧ 0 ≤ y then some (.int ((x.toNat &&& y.toNat : Nat) : Int)) else none   -- non-negative operands only
   | .mul, .u64 x, .u64 y => some (.u64 (x * y))
   | .div, .int x, .int y => if y = 0 then none else some (.int (Int.tdiv x y))   -- Go's `/` truncates toward zero
   | .add, .u64 x, .u64 y => some (.u64 (x + y))
@@ -272,8 +278,19 @@ def extCall (name : String) (args : List Val) : Option (List Val) :=
     else none
   | [.bytes dst, .int v] =>
     if name == "AppendInt" then some [.bytes (dst ++ intToAscii v)] else none       -- strconv.AppendInt(dst, v, 10)
+  | [.u64 mant, .int e2] =>
+    if name == "ryuFtoaShortest" then
+      -- contract of the vendored Ryu (`FloatFmt.shortestFrom`): the shortest digits in the rounding interval of
+      -- mant·2^e2, closest to it, ties to even; ASCII digits, their count, the decimal point position
+      if mant == 0 then some [.bytes #[], .int 0, .int 0]
+      else
+        let sh := FloatFmt.shortestFrom mant.toNat e2 (mant == 4503599627370496 && e2 > -1074)
+        some [.bytes (sh.digits.map FloatFmt.digitChar).toArray, .int sh.digits.length, .int sh.dp]
+    else none
   | [.bytes dst, .u64 v] =>
-    if name == "AppendUint" then some [.bytes (dst ++ FloatFmt.natToAscii v.toNat)]   -- strconv.AppendUint(dst, v, 10)
+    if name == "AppendFloatE" then      -- strconv.AppendFloat(dst, f, 'e', -1, 64) for a finite f
+      some [.bytes (dst ++ FloatFmt.fmtE ((v >>> 63) != 0) (FloatFmt.shortest (v &&& 0x7fffffffffffffff)))]
+    else if name == "AppendUint" then some [.bytes (dst ++ FloatFmt.natToAscii v.toNat)]   -- strconv.AppendUint(dst, v, 10)
     else if name == "appendFloat" then                                                -- the float64 is carried as its bits
       match FloatFmt.appendFloat v with
       | some b => some [.bytes (dst ++ b), .bool false, .bool false]
@@ -287,6 +304,23 @@ def constAsFloat (k : Int) : Int :=
   match F64.trunc? (F64.ofInt k) with
   | some z => z
   | none => k
+
+/-- IEEE comparison of two float64 values given by their bits: false when either is NaN; otherwise the order of
+    sign-and-magnitude integers (so −0 = +0) -/
+def fcmpBits (op : BinOp) (a b : UInt64) : Option Bool :=
+  let nan (x : UInt64) : Bool := (x &&& 0x7fffffffffffffff) > 0x7ff0000000000000
+  let key (x : UInt64) : Int :=
+    let m : Int := ((x &&& 0x7fffffffffffffff).toNat : Int)
+    if (x >>> 63) != 0 then -m else m
+  if nan a || nan b then (match op with | .ne => some true | .eq | .lt | .le | .gt | .ge => some false | _ => none)
+  else match op with
+    | .eq => some (key a == key b)
+    | .ne => some (key a != key b)
+    | .lt => some (key a < key b)
+    | .le => some (key a ≤ key b)
+    | .gt => some (key a > key b)
+    | .ge => some (key a ≥ key b)
+    | _ => none
 
 /-- IEEE comparison of a float64 (bits) with an integer-valued float; false for NaN -/
 def fcmp (op : BinOp) (b : UInt64) (k : Int) : Option Bool :=
@@ -439,6 +473,26 @@ def evalE (s : St) : Expr → EOut
        | .val _ => .stuck "string operand"
        | o => o)
     | .val _ => .stuck "string operand"
+    | o => o
+  | .fcmpF op a bits =>
+    match evalE s a with
+    | .val (.u64 b) => (match fcmpBits op b (UInt64.ofNat bits) with | some r => .val (.bool r) | none => .stuck "float comparison")
+    | .val _ => .stuck "float operand"
+    | o => o
+  | .fIsInf a =>
+    match evalE s a with
+    | .val (.u64 b) => .val (.bool ((b &&& 0x7fffffffffffffff) == 0x7ff0000000000000))
+    | .val _ => .stuck "float operand"
+    | o => o
+  | .fIsNaN a =>
+    match evalE s a with
+    | .val (.u64 b) => .val (.bool ((b &&& 0x7fffffffffffffff) > 0x7ff0000000000000))
+    | .val _ => .stuck "float operand"
+    | o => o
+  | .fabs a =>
+    match evalE s a with
+    | .val (.u64 b) => .val (.u64 (b &&& 0x7fffffffffffffff))
+    | .val _ => .stuck "float operand"
     | o => o
   | .fcmpK op a k =>
     match evalE s a with
@@ -625,6 +679,18 @@ def exec1 (funs : String → Option FunDef) : (fuel : Nat) → Stmt → St → O
        | o => ofE o)
     | .val _ => .stuck "index type"
     | o => ofE o
+  | fuel, .setB name idx e, s =>
+    match s.env.get name with
+    | some (.bytes b) =>
+      (match evalE s idx with
+       | .val (.int k) =>
+         (match evalE s e with
+          | .val (.u8 x) => if 0 ≤ k ∧ k < b.size then .normal { s with env := s.env.set name (.bytes (b.setIfInBounds k.toNat x)) } else .panic
+          | .val _ => .stuck "byte value type"
+          | o => ofE o)
+       | .val _ => .stuck "index type"
+       | o => ofE o)
+    | _ => .stuck "byte slice variable"
   | fuel, .tapeAppend base es, s =>
     match evalEs s es with
     | .error o => ofE o
